@@ -728,6 +728,10 @@ class C02(Prop):
         elif a['e'] is None and op['op'] in ('add', 'mul', 'copy', 'getslice') and not (
             (type(r) is type(x)) if op['op'] != 'getslice' else isinstance(r, list)):
           diff = 'result-type'
+      if diff and case.get('no_oracle'):
+        # an input outside the property's domain (e.g. MISSING nested inside an argument): only the
+        # correspondence of the two models with the two implementations is checked
+        break
       if diff:
         fail = {'step': idx, 'op': op, 'signature': classify(kind, op, n_before, diff),
                 'what': '%s on %s: reference %s, pg %s' % (json.dumps(op), json.dumps(before),
